@@ -58,6 +58,8 @@ type c07Case struct {
 	Shape   int    `json:"shape"`
 	OvPath  int    `json:"ov_path"` // -1 none
 	Ov      string `json:"ov,omitempty"`
+	Ov2Path int    `json:"ov2_path,omitempty"` // 1+index of a second overridden path (0 = none)
+	Ov2     string `json:"ov2,omitempty"`
 	Missing bool   `json:"resolver_missing_unused"` // resolver map lacks the unused paths
 	LocalIs int    `json:"local_is"`                // -1 unrelated, else index of the path that is the local package
 }
@@ -67,7 +69,7 @@ func init() {
 		ID:    "C07",
 		Level: "model_checking",
 		Rule: "every configuration: used-path set (32 subsets of 5 paths incl. two packages named x and one whose name differs from its path) x 12 existing import shapes (none, single, block, two blocks, cgo alone and cgo leading a group, aliases/blank/dot, commented groups, same path twice, alias equal to name, raw-string and escaped path literals) " +
-			"x FileRestorer.Alias override {none} + path x {new id, id of another package, the suffixed name a conflict would generate (x1), an alias another source import already uses, '.', '', '_'} x resolver {exact, lacking unused paths} x local path {unrelated, equal to a used path}; references are path-carrying identifiers in call, type and composite-literal positions; " +
+			"x FileRestorer.Alias override {none} + path x {new id, id of another package, the suffixed name a conflict would generate (x1), an alias another source import already uses, '.', '', '_'} (and a second simultaneous override on a later path: quick {new id equal to the first override's, name of another package}, thorough the whole alphabet) x resolver {exact, lacking unused paths} x local path {unrelated, equal to a used path}; references are path-carrying identifiers in call, type and composite-literal positions; " +
 			"oracle independent of updateImports: re-parse the output, rebuild the import table from its import declarations and the resolver map; binding of every reference, exact import set, distinct names, name preference override > source alias > resolved name (+ decimal suffix on conflict), " +
 			"stable order/comments when nothing is added, and go/types acceptance; state = configuration; non-trivial = configuration with at least one used path",
 		Assumptions: []string{"package i exports Fi/Ti/Vi so that a reference name identifies its package", "go/types (FakeImportC) is the acceptance oracle"},
@@ -100,6 +102,23 @@ func init() {
 								ctx.Eval(cs, c07Check(cs))
 								if used == 13 && ovp == 2 && ov == "zz" {
 									ctx.Sample(cs)
+								}
+								// a second, simultaneous override on a later path (quick: the two that can collide with
+								// the first one's name; thorough: the whole override alphabet)
+								if ovp < 0 || local >= 0 || missing {
+									continue
+								}
+								ov2s := []string{"zz", "@other"}
+								if ctx.Thorough() {
+									ov2s = c07Overrides
+								}
+								for ovp2 := ovp + 1; ovp2 < len(c07Paths); ovp2++ {
+									for _, ov2 := range ov2s {
+										cs := c07Case{Used: used, Shape: shape, OvPath: ovp, Ov: ov, Ov2Path: ovp2 + 1, Ov2: ov2, LocalIs: -1}
+										ctx.CountState(used != 0)
+										ctx.R.Transitions++
+										ctx.Eval(cs, c07Check(cs))
+									}
 								}
 							}
 						}
@@ -179,26 +198,29 @@ func c07Check(cs c07Case) core.Outcome {
 			}
 		}
 	}
-	override, hasOv := "", false
-	ovPath := ""
-	if cs.OvPath >= 0 {
-		ovPath = c07Paths[cs.OvPath]
-		override, hasOv = cs.Ov, true
-		if override == "@other" {
+	resolveOv := func(pathIdx int, ov string) string {
+		switch ov {
+		case "@other":
 			// the resolved name of another package
-			override = c07Names[c07Paths[(cs.OvPath+1)%len(c07Paths)]]
-		}
-		if override == "@srcalias" {
+			return c07Names[c07Paths[(pathIdx+1)%len(c07Paths)]]
+		case "@srcalias":
 			// an alias that another import of the source already uses
-			override = "f"
-			if cs.OvPath == 0 {
-				override = "x2"
+			if pathIdx == 0 {
+				return "x2"
 			}
-		}
-		if override == "@other1" {
+			return "f"
+		case "@other1":
 			// the name the conflict resolution would generate for a clash between the two x packages
-			override = "x1"
+			return "x1"
 		}
+		return ov
+	}
+	overrides := map[string]string{} // FileRestorer.Alias
+	if cs.OvPath >= 0 {
+		overrides[c07Paths[cs.OvPath]] = resolveOv(cs.OvPath, cs.Ov)
+	}
+	if cs.Ov2Path > 0 { // a second, simultaneous override (index+1; 0 = none)
+		overrides[c07Paths[cs.Ov2Path-1]] = resolveOv(cs.Ov2Path-1, cs.Ov2)
 	}
 	names := map[string]string{}
 	for _, p := range c07Paths {
@@ -210,8 +232,8 @@ func c07Check(cs c07Case) core.Outcome {
 		f, _ := c07BuildFile(cs)
 		r := decorator.NewRestorerWithImports(local, simple.New(names))
 		fr := r.FileRestorer()
-		if hasOv {
-			fr.Alias[ovPath] = override
+		for p, a := range overrides {
+			fr.Alias[p] = a
 		}
 		var buf bytes.Buffer
 		var err error
@@ -248,7 +270,7 @@ func c07Check(cs c07Case) core.Outcome {
 	}
 	// expected preferred alias per path
 	pref := func(p string) string { // "." dot, "_" blank, else the preferred name
-		if hasOv && p == ovPath {
+		if override, hasOv := overrides[p]; hasOv {
 			switch {
 			case override == "":
 				return c07Names[p]
@@ -274,8 +296,10 @@ func c07Check(cs c07Case) core.Outcome {
 			wantImports[p] = true
 		}
 	}
-	if hasOv && override == "_" && !used[ovPath] {
-		wantImports[ovPath] = true
+	for ovPath, override := range overrides {
+		if override == "_" && !used[ovPath] {
+			wantImports[ovPath] = true
+		}
 	}
 	twice := c07Shapes[cs.Shape].Name == "same-path-twice"
 	for p := range wantImports {
